@@ -167,7 +167,7 @@ def finish(ctx, known, t0, controls=None, selftest=None, seed=0, level='other',
             samples.append('%s | %s -> %s%s' % (rid, cons, verdict, (' (' + note + ')') if note else ''))
             seen_rules[rid] = k + 1
     obligations = evaluations
-    discharged = evaluations - len(ctx.findings)
+    discharged = evaluations - len(ctx.findings) - len([i for i in ctx.instances if str(i[2]).startswith(('undecided', 'not-analysed'))])
     ev = {
         'property_id': ctx.prop,
         'tier': ctx.tier,
@@ -192,6 +192,8 @@ def finish(ctx, known, t0, controls=None, selftest=None, seed=0, level='other',
             'modules_analysed': len(ctx.model.modules),
             'known_findings_matched': [dict(rule=f.rule, construct=f.construct, what=e['what']) for f, e in known_hit],
             'notes': ctx.notes,
+            'undecided_instances': ['%s | %s%s' % (i[0], i[1], (' (' + i[3] + ')') if i[3] else '') for i in ctx.instances
+                                    if str(i[2]).startswith(('undecided', 'not-analysed'))],
         },
         'assumptions': assumptions or [],
         'wall_s': round(time.time() - t0, 3),
